@@ -325,6 +325,34 @@ def k_rules(p: Project, rep: Report):
     else:
         rep.note("K-R1 undecided: no `status.code == 1` branch recognised")
 
+    # what is returned can be read: the stream handed back is rewound after the last time this call consumed it
+    left_at_eof = None
+    checked = 0
+    for q in paths:
+        if q.outcome != "return" or q.value is None:
+            continue
+        oid = _rtext(q, cfg, q.value, len(q.nodes) - 1)
+        dirty = False
+        for j, nid in enumerate(q.nodes[:-1]):
+            n_ = cfg.nodes[nid]
+            if n_.stmt is None or n_.kind in ("join", "handlers"):
+                continue
+            for c_ in n_.calls():
+                f_ = c_.func
+                if not isinstance(f_, ast.Attribute):
+                    continue
+                if f_.attr in ("parse", "feed", "fromstring") and c_.args and _rtext(q, cfg, c_.args[0], j) == oid:
+                    dirty = True
+                elif f_.attr in ("read", "readline", "readlines", "getvalue") and f_.attr != "getvalue" and _rtext(q, cfg, f_.value, j) == oid:
+                    dirty = True
+                elif f_.attr == "seek" and c_.args and text(c_.args[0]) == "0" and _rtext(q, cfg, f_.value, j) == oid:
+                    dirty = False
+        checked += 1
+        if dirty:
+            left_at_eof = (oid, simple_conds(q.conds))
+    if checked:
+        rep.check("K-R1", "request_profile:returned-stream-rewound", left_at_eof is None, f"on a path (taken when {left_at_eof[1] if left_at_eof else ''}) the stream that is returned ({left_at_eof[0][:50] if left_at_eof else ''}) was parsed by this call and is not rewound afterwards: the caller reads nothing from it" if left_at_eof else "", loc(p, fn))
+
     # ------------------------------------------------------------------ K-R2
     rep.rule("K-R2", "the cache is replaced atomically: nothing is opened for writing at the cache path itself; the bytes go to a different, per-writer-unique name in the same directory, and every such write is followed on all normal paths by an atomic rename onto the cache path")
     for n, c, pth in writes:
